@@ -90,6 +90,14 @@ type VerifReceiveResult struct {
 // channels as usual.
 func VerifReceive(calls []hrpc.Call, asMulti bool, codec compression.Codec, callID uint32,
 	stream []byte) (res VerifReceiveResult) {
+	return VerifReceiveAfter(calls, asMulti, codec, callID, stream, nil)
+}
+
+// VerifReceiveAfter is VerifReceive with a callback that runs once the
+// request counts as written (registered as sent) and before the response is
+// read: what happens to the calls while the request is in flight.
+func VerifReceiveAfter(calls []hrpc.Call, asMulti bool, codec compression.Codec, callID uint32,
+	stream []byte, inFlight func()) (res VerifReceiveResult) {
 	c := &client{
 		conn:         verifNopConn{},
 		rpcs:         make(chan []hrpc.Call),
@@ -126,6 +134,9 @@ func VerifReceive(calls []hrpc.Call, asMulti bool, codec compression.Codec, call
 		res.Leftover = len(c.sent)
 		c.sentM.Unlock()
 	}()
+	if inFlight != nil {
+		inFlight()
+	}
 	res.Err = c.receive(bytes.NewReader(stream))
 	return res
 }
